@@ -267,7 +267,11 @@ func (n *BitcoinNode) CancelBlockRequest(ctx context.Context, hash bitcoin.Hash3
 	}
 
 	if n.blockReader != nil {
-		// Stop in progress handling of block
+		// Stop in progress handling of block. The handler of the block message fails on the closed
+		// reader and that ends the connection, so close the connection first: the reader can only
+		// be closed while no read is pending on it, and a stalled peer would otherwise keep this
+		// call, which holds the node lock, waiting for its next byte.
+		n.closeConnection()
 		n.blockReader.Close()
 		n.blockReader = nil
 		n.blockOnStop = nil
@@ -453,6 +457,13 @@ func (n *BitcoinNode) run(ctx context.Context, interrupt <-chan interface{}) err
 
 func (n *BitcoinNode) Stop(ctx context.Context) {
 	logger.Info(ctx, "Stopping: %s", n.Address())
+	n.closeConnection()
+
+	n.outgoingMsgChannel.Close()
+}
+
+// closeConnection closes the connection to the node. It does not take the node lock.
+func (n *BitcoinNode) closeConnection() {
 	n.connectionLock.Lock()
 	if n.connection != nil {
 		n.connection.Close()
@@ -460,8 +471,6 @@ func (n *BitcoinNode) Stop(ctx context.Context) {
 		n.connectionClosedLocally = true
 	}
 	n.connectionLock.Unlock()
-
-	n.outgoingMsgChannel.Close()
 }
 
 func (n *BitcoinNode) HandshakeIsComplete() bool {
